@@ -241,6 +241,49 @@ pub fn exec_cfg(rng: &mut Rng, case: usize) -> GenCfg {
     g
 }
 
+fn memory_limit_cases() -> Vec<(String, Vec<u8>)> {
+    use wasm_encoder::{CodeSection, ExportKind, ExportSection, Function, FunctionSection, Instruction as I, MemArg, MemorySection, MemoryType, Module, TypeSection, ValType};
+    let mut v = vec![];
+    for (min, max) in [(1u64, Some(1u64)), (0, Some(0)), (2, Some(2)), (1, Some(2)), (1, Some(3)), (1, None), (0, Some(1))] {
+        let mut m = Module::new();
+        let mut t = TypeSection::new();
+        t.function([], [ValType::I32]);
+        t.function([], []);
+        m.section(&t);
+        let mut fs = FunctionSection::new();
+        for ty in [0u32, 0, 0, 1] {
+            fs.function(ty);
+        }
+        m.section(&fs);
+        let mut ms = MemorySection::new();
+        ms.memory(MemoryType { minimum: min, maximum: max, memory64: false, shared: false, page_size_log2: None });
+        m.section(&ms);
+        let mut ex = ExportSection::new();
+        ex.export("grow1", ExportKind::Func, 0);
+        ex.export("grow2", ExportKind::Func, 1);
+        ex.export("size", ExportKind::Func, 2);
+        ex.export("poke", ExportKind::Func, 3);
+        ex.export("m", ExportKind::Memory, 0);
+        m.section(&ex);
+        let mut code = CodeSection::new();
+        for body in [
+            vec![I::I32Const(1), I::MemoryGrow(0), I::End],
+            vec![I::I32Const(2), I::MemoryGrow(0), I::End],
+            vec![I::MemorySize(0), I::End],
+            vec![I::I32Const(65536 * min as i32), I::I32Const(1), I::I32Store8(MemArg { offset: 0, align: 0, memory_index: 0 }), I::End],
+        ] {
+            let mut f = Function::new([]);
+            for i in &body {
+                f.instruction(i);
+            }
+            code.function(&f);
+        }
+        m.section(&code);
+        v.push((format!("{}-{}", min, max.map(|x| x.to_string()).unwrap_or("none".into())), m.finish()));
+    }
+    v
+}
+
 pub fn main(seed: u64, tier: &str, only: Option<&str>) {
     let prop = std::env::var("VERIF_PROPERTY").unwrap_or_default();
     let mut stats = Stats::default();
@@ -294,6 +337,18 @@ pub fn main(seed: u64, tier: &str, only: Option<&str>) {
     }
     judge(batch, &prop, &mut stats);
     out::stat("exec.numeric_operators_run_one_by_one", nops);
+    // memories at, just below and far from their declared maximum, grown, measured and written
+    // beyond the first page by parameterless exports: a changed limit shows as a different
+    // result of `memory.grow`, a different size or a missing trap
+    let mut batch = vec![];
+    for (k, (name, wasm)) in memory_limit_cases().into_iter().enumerate() {
+        let pass = if prop == "C06" { Pass::Gc } else { Pass::None };
+        if let Ok(c) = prepare(&format!("memlim-{}", name), &wasm, pass, (seed * 77 + k as u64) % 1000000007, rounds, gas) {
+            batch.push(c);
+        }
+    }
+    out::stat("exec.memory_limit_cases", batch.len());
+    judge(batch, &prop, &mut stats);
     out::stat("exec.modules_run", stats.modules / 1);
     out::stat("exec.instantiation_failed", stats.inst_fail);
     out::stat("exec.calls_returned", stats.calls_ok);
